@@ -6,6 +6,7 @@ import H263V.Model.Yuv
 import H263V.Spec.Bt601
 import H263V.Lemmas.Yuv
 import H263V.Lemmas.YuvImg
+import H263V.Lemmas.YuvPixel
 namespace H263V.Thm.C08
 open H263V H263V.Yuv
 
@@ -25,5 +26,26 @@ theorem no_panic_and_length (y cb cr : Array Nat) (w h : Nat) (hw : 1 ≤ w) (hh
     (hy : Bytes y) (hb : Bytes cb) (hr : Bytes cr) :
     ∃ out, yuv420ToRgba y cb cr w = .ok out ∧ out.size = 4 * (w * h) :=
   Lemmas.YuvImg.yuv_ok y cb cr w h hw hh hys hbs hrs hy hb hr
+
+/-- The full layout statement, for every width and height of at least one and arbitrary plane contents: the output holds
+width x height RGBA pixels in row-major order, and bytes 4(y·w+x) .. +3 are R, G, B, A of the BT.601 conversion (C07) of luma
+sample (x, y) with the chroma samples at (⌊x/2⌋, ⌊y/2⌋) — replicated, never interpolated or shifted — whether the pixel falls
+into a whole 4-pixel group or into the per-row remainder path; all plane indices used are in range. -/
+theorem pixel_at (y cb cr : Array Nat) (w h : Nat) (hw : 1 ≤ w) (hh : 1 ≤ h) (hys : y.size = w * h)
+    (hbs : cb.size = ((w + 1) / 2) * ((h + 1) / 2)) (hrs : cr.size = ((w + 1) / 2) * ((h + 1) / 2))
+    (hy : Bytes y) (hb : Bytes cb) (hr : Bytes cr) :
+    ∃ out, yuv420ToRgba y cb cr w = .ok out ∧ out.size = 4 * (w * h) ∧
+      ∀ x yy k, x < w → yy < h → k < 4 →
+        yy * w + x < y.size ∧ yy / 2 * ((w + 1) / 2) + x / 2 < cb.size ∧ yy / 2 * ((w + 1) / 2) + x / 2 < cr.size ∧
+        out[4 * (yy * w + x) + k]? =
+          some (Lemmas.Yuv.chan (Spec.Bt601.pixel (y.getD (yy * w + x) 0) (cb.getD (yy / 2 * ((w + 1) / 2) + x / 2) 0)
+            (cr.getD (yy / 2 * ((w + 1) / 2) + x / 2) 0)) k).toNat :=
+  Lemmas.YuvPixel.pixel_at y cb cr w h hw hh hys hbs hrs hy hb hr
+
+/-- non-vacuity: a 5x3 picture (remainder column, odd height) meets the hypotheses -/
+example : ∃ out, yuv420ToRgba (Array.replicate 15 100) (Array.replicate 6 90) (Array.replicate 6 200) 5 = .ok out ∧ out.size = 60 := by
+  obtain ⟨out, h1, h2, _⟩ := pixel_at (Array.replicate 15 100) (Array.replicate 6 90) (Array.replicate 6 200) 5 3 (by omega) (by omega)
+    (by simp) (by simp) (by simp) (by intro i hi; simp) (by intro i hi; simp) (by intro i hi; simp)
+  exact ⟨out, h1, by simpa using h2⟩
 
 end H263V.Thm.C08
